@@ -33,7 +33,7 @@ def unchanged(r, snap):
     return r.data is snap[0] and (r.sampling_rate, r.sample_width, r.channels) == snap[1:]
 
 
-def concat_harness(L, sw, ch, sr, op, k, variant):
+def concat_harness(L, sw, ch, sr, op, k, variant, feed="list"):
     """op in '+', 'sum', 'join': k operands (join: k operands glued with a separator region)"""
     core = L.modules["core"]
     exc = L.modules["exceptions"]
@@ -54,8 +54,17 @@ def concat_harness(L, sw, ch, sr, op, k, variant):
             lens["nsep"] = Ds.nsamples
             sep = core.AudioRegion(ds, sr, sw, ch)
         snaps = [snapshot(r) for r in regs]
-        meta = dict(kind="concat", op=op, k=k, variant=variant, sw=sw, ch=ch, sr=sr)
+        meta = dict(kind="concat", op=op, k=k, variant=variant, sw=sw, ch=ch, sr=sr, feed=feed)
         res = err = None
+
+        def fed():
+            if feed == "iter":
+                return iter(regs)
+            if feed == "generator":
+                return (r for r in regs)
+            if feed == "tuple":
+                return tuple(regs)
+            return list(regs)
         try:
             if op == "+":
                 acc = regs[0]
@@ -63,9 +72,9 @@ def concat_harness(L, sw, ch, sr, op, k, variant):
                     acc = acc + r
                 res = acc
             elif op == "sum":
-                res = sum(regs)
+                res = sum(fed())
             else:
-                res = sep.join(regs)
+                res = sep.join(fed())
         except exc.AudioParameterError as ex:
             err = ex
         except Exception as ex:
@@ -129,6 +138,9 @@ def silence_harness(L, sw, ch, sr, den):
         meta = dict(kind="silence", den=den, sw=sw, ch=ch, sr=sr)
         try:
             reg = core.make_silence(SymRat(p, den), sr, sw, ch)
+            # same sample count asked again with other parameters: no state may leak between calls
+            reg2 = core.make_silence(SymRat(p, 2 * den), 2 * sr, sw, ch)
+            reg3 = core.make_silence(SymRat(p, den), sr, sw * 2 if sw < 4 else 1, ch)
         except Exception as ex:
             return now(e, "raised %s: %s" % (type(ex).__name__, str(ex)[:60]), {"p": p}, meta)
         # expected sample count = round-half-even(p*sr/den)
@@ -144,6 +156,10 @@ def silence_harness(L, sw, ch, sr, den):
             "length = round(d*rate)*sw*ch": lift(reg.data).length() == cnt * sw * ch,
             "all bytes zero": all(s[0] == "z" or (s[0] == "c" and set(s[1]) <= {0}) for s in segs),
             "params": (reg.sampling_rate, reg.sample_width, reg.channels) == (sr, sw, ch),
+            "second call, doubled rate: params": (reg2.sampling_rate, reg2.sample_width, reg2.channels) == (2 * sr, sw, ch),
+            "second call, doubled rate: length": lift(reg2.data).length() == cnt * sw * ch,
+            "third call, other width: params and length": z3.And(z3.BoolVal((reg3.sampling_rate, reg3.sample_width, reg3.channels) == (sr, sw * 2 if sw < 4 else 1, ch)),
+                                                                  lift(reg3.data).length() == cnt * (sw * 2 if sw < 4 else 1) * ch),
         }
         return tok.discharge(e, conds, lambda m: mk(m, {"p": p}, meta))
     return path
@@ -293,16 +309,16 @@ def replay_fn(c):
             regs = [reg(i, c["n%d" % i], other_fmt(sw, ch, sr, variant) if (variant != "same" and i == k - 1) else None) for i in range(k)]
             datas = [r.data for r in regs]
             sep = reg(99, c["nsep"]) if op == "join" else None
-            desc = "%s of %d regions (%s samples, last differs in %s)" % (op, k, [c["n%d" % i] for i in range(k)], variant)
+            desc = "%s of %d regions given as %s (%s samples, last differs in %s)" % (op, k, c.get("feed", "list"), [c["n%d" % i] for i in range(k)], variant)
             try:
                 if op == "+":
                     res = regs[0]
                     for r in regs[1:]:
                         res = res + r
                 elif op == "sum":
-                    res = sum(regs)
+                    res = sum({"iter": iter, "generator": lambda x: (r for r in x), "tuple": tuple}.get(c.get("feed"), list)(regs))
                 else:
-                    res = sep.join(regs)
+                    res = sep.join({"iter": iter, "generator": lambda x: (r for r in x), "tuple": tuple}.get(c.get("feed"), list)(regs))
                 err = None
             except AudioParameterError as ex:
                 err, res = ex, None
@@ -338,6 +354,11 @@ def replay_fn(c):
                 return []
             r = ak.make_silence(d, sr, sw, ch)
             cnt = round(fractions.Fraction(c["p"], c["den"]) * sr)
+            r2 = ak.make_silence(d / 2, 2 * sr, sw, ch)
+            sw3 = sw * 2 if sw < 4 else 1
+            r3 = ak.make_silence(d, sr, sw3, ch)
+            if (r2.sr, r2.sw, r2.ch) != (2 * sr, sw, ch) or r2.data != b"\0" * (cnt * bps) or (r3.sr, r3.sw, r3.ch) != (sr, sw3, ch) or r3.data != b"\0" * (cnt * sw3 * ch):
+                return [("C17: make_silence result depends on an earlier call", "make_silence(%r, %d, %d, %d) then make_silence(%r, %d, ...) -> rate %d, %d bytes; third call width %d, %d bytes" % (d, sr, sw, ch, d / 2, 2 * sr, r2.sr, len(r2.data), r3.sw, len(r3.data)))]
             if r.data != b"\0" * (cnt * bps) or (r.sr, r.sw, r.ch) != (sr, sw, ch):
                 return [("C17: make_silence length or content wrong", "make_silence(%r, %d, %d, %d) has %d bytes, expected %d zero bytes" % (d, sr, sw, ch, len(r.data), cnt * bps))]
             return []
@@ -421,6 +442,9 @@ def run(rep):
             for k in range(0 if op != "+" else 1, KMAX + 1):
                 for variant in (VARIANTS if (k >= 2 and (sw, ch) == fm[0]) else VARIANTS[:1]):
                     go("%s[sw=%d,ch=%d,k=%d,%s]" % (op, sw, ch, k, variant), concat_harness(L, sw, ch, 10, op, k, variant))
+                if op != "+" and k in (2, 3) and (sw, ch) == fm[0]:
+                    for feed in ("iter", "generator", "tuple"):
+                        go("%s[sw=%d,ch=%d,k=%d,%s]" % (op, sw, ch, k, feed), concat_harness(L, sw, ch, 10, op, k, "same", feed))
         for n in list(range(-1, NMAX + 1)) + [2.0, "3", None]:
             for left in ((False, True) if (sw, ch) == fm[0] else (False,)):
                 go("repeat[sw=%d,ch=%d,n=%r,%s]" % (sw, ch, n, "left" if left else "right"), repeat_harness(L, sw, ch, 10, n, left), workers=2)
